@@ -7,17 +7,9 @@
 (* strings carry exactly that value and error; scalar views use exactly    *)
 (* value and error.  All arithmetic on the exact rationals of the doubles. *)
 (***************************************************************************)
-EXTENDS Num, Str, TraceBase, FiniteSets
+EXTENDS ValErr, TraceBase, FiniteSets
 VARIABLE l
 
-\* ---- reading "V(E)" -------------------------------------------------------------------------------
-HasShape(s) == StrIndexOf(s, "(") > 1 /\ StrSub(s, StrLen(s), StrLen(s)) = ")" /\ StrIndexOf(s, ")") = StrLen(s)
-VText(s) == StrBefore(s, "(")
-EText(s) == StrSub(s, StrIndexOf(s, "(") + 1, StrLen(s) - 1)
-Unit(s)  == RPowInt("10", 0 - StrDecimals(VText(s)))
-ParsedV(s) == StrParseDecimal(VText(s))
-\* the error digits count in units of the last printed digit of the value, unless the error carries its own point
-ParsedE(s) == IF StrContains(EText(s), ".") THEN StrParseDecimal(EText(s)) ELSE RMul(StrParseDecimal(EText(s)), Unit(s))
 \* number of significant digits shown for the error: digits without the point and without leading zeros
 Digits(t) == LET ch == SelectSeq(StrChars(t), LAMBDA c : c # ".")
                  RECURSIVE Lead(_)
